@@ -152,8 +152,8 @@ enum Policy { P_DEFAULT = 0, P_REUSABLE, P_MTSAFE, P_STACK, P_PLACEMENT, P_BUFFE
 static const char *pol_names[] = {"default", "reusable", "reusable_mtsafe", "stack_storage", "placement_alloc", "reusable_buffer", "extra+default", "extra+reusable", "extra+reusable_mtsafe", "reusable_buffer<24-byte items>", "extra(alignas16)+default", "extra(alignas16)+reusable"};
 static bool single_frame(int p) { return p == P_REUSABLE || p == P_PLACEMENT || p == P_BUFFER || p == P_EXTRA_REUSABLE || p == P_BUFFER24 || p == P_EXTRA16_REUSABLE; }
 
-enum { CREATE_S = 0, CREATE_M, CREATE_L, FINISH0, FINISH1, FINISH2, MOVE_CTOR, MOVE_ASSIGN, NOPS };
-static const char *op_names[] = {"create(S)", "create(M)", "create(L)", "finish(0)", "finish(1)", "finish(2)", "move-construct-storage", "move-assign-storage"};
+enum { CREATE_S = 0, CREATE_M, CREATE_L, FINISH0, FINISH1, FINISH2, MOVE_CTOR, MOVE_ASSIGN, MOVE_AWAY, NOPS };
+static const char *op_names[] = {"create(S)", "create(M)", "create(L)", "finish(0)", "finish(1)", "finish(2)", "move-construct-storage", "move-assign-storage", "move-away-and-keep-using-the-source"};
 
 static std::string describe(int pol, const std::vector<int> &seq) {
     std::ostringstream o;
@@ -174,6 +174,10 @@ struct HReusable {
     void move_ctor() {
         std::unique_ptr<Spy<cocls::reusable_storage>> n(new Spy<cocls::reusable_storage>(std::move(*st)));
         st = std::move(n);
+    }
+    void move_away() {
+        // the block goes to another object (which dies); the moved-from object stays in use and starts from scratch
+        Spy<cocls::reusable_storage> taker(std::move(*st));
     }
     void move_assign() {
         std::unique_ptr<Spy<cocls::reusable_storage>> n(new Spy<cocls::reusable_storage>());
@@ -283,6 +287,14 @@ static void run_policy(seqx::Runner &R, int pol, const std::vector<int> &seq) {
                 start_coro(st, s.get(), cls, tag++);
                 uint64_t news = seqx::news() - news_before;
                 if (!s->started) R.fail("storage/coroutine-did-not-start", "coroutine did not run to its first suspension");
+                // a buffer policy places the frame in the caller's buffer, nowhere else
+                if constexpr (requires { h->buf.data(); }) {
+                    const char *lo = reinterpret_cast<const char *>(h->buf.data());
+                    const char *hi = lo + h->buf.size() * sizeof(*h->buf.data());
+                    seqx::NoCount nc2;
+                    if (g_log.empty() || g_log.back().p < lo || g_log.back().p + g_log.back().sz > hi)
+                        R.fail("storage/frame-outside-buffer", "the frame was not placed inside the caller's buffer (buffer holds %zu bytes)", (size_t)(hi - lo));
+                }
                 // warm-up rule for the reusing policies: an equally sized (or smaller) frame needs no further heap memory
                 bool reusing = pol == P_REUSABLE || pol == P_BUFFER || pol == P_BUFFER24 || pol == P_EXTRA_REUSABLE || pol == P_EXTRA16_REUSABLE || pol == P_PLACEMENT || (is_mtsafe && live.empty());
                 if (reusing && cls <= max_cls_seen && news != 0)
@@ -303,12 +315,17 @@ static void run_policy(seqx::Runner &R, int pol, const std::vector<int> &seq) {
                 if (cls > max_cls_seen && !(is_mtsafe && !live.empty())) max_cls_seen = cls;
                 seqx::NoCount nc;
                 live.push_back(std::move(s));
-            } else if (op == MOVE_CTOR || op == MOVE_ASSIGN) {
+            } else if (op == MOVE_CTOR || op == MOVE_ASSIGN || op == MOVE_AWAY) {
                 if constexpr (requires { h->move_ctor(); }) {
                     if (op == MOVE_CTOR)
                         h->move_ctor();
-                    else
+                    else if (op == MOVE_ASSIGN)
                         h->move_assign();
+                    else {
+                        h->move_away();
+                        max_cls_seen = -1;  // the warm block left with the other object
+                        seen_cls[0] = seen_cls[1] = seen_cls[2] = false;
+                    }
                 }
             } else {
                 size_t idx = (size_t)(op - FINISH0);
@@ -468,8 +485,8 @@ static void dfs(seqx::Runner &R, int pol, int depth, std::vector<int> &seq, int 
             seq.push_back(op);
             dfs(R, pol, depth, seq, nlive + 1);
             seq.pop_back();
-        } else if (op == MOVE_CTOR || op == MOVE_ASSIGN) {
-            if (pol != P_REUSABLE || nlive != 0 || seq.empty() || seq.back() == MOVE_CTOR || seq.back() == MOVE_ASSIGN) continue;
+        } else if (op == MOVE_CTOR || op == MOVE_ASSIGN || op == MOVE_AWAY) {
+            if (pol != P_REUSABLE || nlive != 0 || seq.empty() || seq.back() >= MOVE_CTOR) continue;
             seq.push_back(op);
             dfs(R, pol, depth, seq, nlive);
             seq.pop_back();
